@@ -250,6 +250,10 @@ func parseCryptoFunction(raw, crypto string) (SuiteConfig, error) {
 		return SuiteConfig{}, fmt.Errorf("unsupported hash %q", hashPart)
 	}
 
+	if strings.HasPrefix(digPart, "+") {
+		// strconv.Atoi would read "+6" as 6; the naming scheme has no signed numbers
+		return SuiteConfig{}, fmt.Errorf("invalid digit spec %q", digPart)
+	}
 	dig, err := strconv.Atoi(digPart)
 	if err != nil {
 		return SuiteConfig{}, fmt.Errorf("invalid digit spec %q", digPart)
@@ -338,6 +342,9 @@ func parseTimeGranularity(g string) (int, error) {
 	}
 	numStr := g[:len(g)-1]
 	unit := g[len(g)-1]
+	if strings.HasPrefix(numStr, "+") {
+		return 0, fmt.Errorf("invalid time spec %q", g)
+	}
 	val, err := strconv.Atoi(numStr)
 	if err != nil {
 		return 0, err
